@@ -11,7 +11,7 @@ class _RL(dict):
 UNIT_RLIMIT = _RL({"div_small": 80, "mul_redc": 80})      # unit -> --rlimit (Verus default is 10; 5x head-room over the measured maximum)
 UNIT_TIMEOUT = {"knuth": 1500, "addmul": 900, "mul_redc": 1200}     # unit -> seconds
 UNIT_EXPECT = {       # unit -> minimum number of verified functions on the unchanged tree (vacuity guard)
-    "core": 31, "add": 29, "kernels": 79, "addmul": 71, "addmul_n": 73, "mul": 51, "divd": 45, "div_small": 235, "knuth": 145, "mul_redc": 126, "basics": 22, "pow": 38, "divw": 54, "modular": 70, "spigot": 44, "gcd": 24, "forward": 57, "invring": 47, "bitlen": 81, "shifts": 131, "recip_table": 2, "gcdext": 67, "gcdw": 36, "bits": 78, "conv": 53, "lehmer": 38, "jebelean": 92, "logs": 27, "forward_shift": 81, "fmt_consts": 5, "rotate": 27, "popcount": 29, "conv_slice": 54, "conv_prim": 53, "absdiff": 15, "frombase": 71, "byteslice": 72, "padlimbs": 45, "addnx1": 37,
+    "core": 31, "add": 29, "kernels": 79, "addmul": 71, "addmul_n": 73, "mul": 51, "divd": 45, "div_small": 235, "knuth": 145, "mul_redc": 126, "basics": 22, "pow": 38, "divw": 54, "modular": 70, "spigot": 44, "gcd": 24, "forward": 57, "invring": 47, "bitlen": 81, "shifts": 131, "recip_table": 2, "gcdext": 67, "gcdw": 36, "bits": 78, "conv": 53, "lehmer": 38, "jebelean": 92, "logs": 27, "forward_shift": 81, "fmt_consts": 5, "rotate": 27, "popcount": 29, "conv_slice": 54, "conv_prim": 53, "absdiff": 15, "frombase": 71, "byteslice": 72, "padlimbs": 45, "addnx1": 37, "sumprod": 26,
 }
 
 COMMON_TRUST = [
@@ -55,6 +55,17 @@ def hs(module, include=None, exclude=None):
     return out
 
 
+def fmt_hs(quick):
+    """concrete formatting harnesses of kani/src/c09f.rs (declared through the fmt_cases! macro)"""
+    try:
+        src = open(_os.path.join(_KDIR, "c09f.rs")).read()
+    except OSError:
+        return []
+    names = _re.findall(r"^\s+(c09f_[a-z0-9_]+):", src, _re.M)
+    slow = ("c09f_one_ux_w64", "c09f_one_d_w64", "c09f_bnd_dm_w65", "c09f_one_dbg_w64", "c09f_max_d_w128")
+    return ["c09f::" + n for n in names if not (quick and n in slow)]
+
+
 W_Q = ["w0", "w1", "w8", "w60", "w64", "w65", "w128", "w192"]
 W_T = W_Q + ["w250", "w256"]
 
@@ -64,12 +75,12 @@ NOT_APPLICABLE = {}
 PROPS = {
     "C01": dict(
         level="proof",
-        level_text="Verus discharges value/flag/canonicity contracts of overflowing_add/sub/neg, all checked/saturating/wrapping wrappers, abs_diff and the 12 + / - operator impls for every BITS and LIMBS "
+        level_text="Verus discharges value/flag/canonicity contracts of overflowing_add/sub/neg, all checked/saturating/wrapping wrappers, abs_diff, the 12 + / - operator impls and both Sum impls (sum of a sequence of any length, modulo 2^BITS) for every BITS and LIMBS "
                    "on the functions re-extracted from /repo each run; Kani proves the same contract for every entry point (methods, all operator shapes, Sum) per width",
         level_note="assumed: u64::overflowing_add/sub specifications (cross-checked full-domain by Kani), the extraction normalisations, the tools; "
-                   "Sum/iterator fold only bounded (<= 3 elements); abs_diff uses the assumed contract of `<` on Uint (lib/uint_ops.rs: agrees with the value; cmp is proved in unit kernels)",
+                   "Sum (unit sumprod): declared rewrites - the iterator type parameter is instantiated with a (copying) slice iterator and `iter[.copied()].fold(init, f)` is written as its definition `acc = init; while let Some(x) = iter.next() { acc = f(acc, *x) }` (init and f are taken from the real tokens); other iterator types are covered by Kani on <= 3 elements only; abs_diff uses the assumed contract of `<` on Uint (lib/uint_ops.rs: agrees with the value; cmp is proved in unit kernels)",
         technique="deductive contracts (Verus, all widths) + Kani per-width contract harnesses with replayed counterexamples",
-        units=["core", "add", "forward", "absdiff"],
+        units=["core", "add", "forward", "absdiff", "sumprod"],
         kani=dict(
             features=None,
             quick=["c01::c01_arith_" + w for w in ["w0", "w1", "w60", "w64", "w65", "w128"]] + ["c01::c01_sum_w65"] + hs("core_specs", r"u64_"),
@@ -78,8 +89,8 @@ PROPS = {
         ),
         explanation="overflowing_add/sub/neg and their wrappers carry Verus contracts over val() = limb value for ALL BITS/LIMBS; "
                     "Kani re-checks every entry point (methods, six operator shapes, Sum) per width against a ripple-carry oracle and supplies counterexamples",
-        trusted=COMMON_TRUST + ["std Iterator::fold / copied (Sum is checked by Kani on slices of length <= 3 only)"],
-        not_decided=["Sum over iterators longer than 3 (follows by induction from wrapping_add's contract; the induction over std's fold is not mechanised)"],
+        trusted=COMMON_TRUST + ["std Iterator::fold / copied: replaced by their definitions in unit sumprod (declared rewrite); vstd's specification of slice::Iter::next"],
+        not_decided=["Sum over iterator types other than slice iterators (parametricity argument, not mechanised; Kani on <= 3 elements)"],
     ),
     "C15": dict(
         level="proof",
@@ -118,9 +129,9 @@ PROPS = {
                    "debug assertion) and the limb-doubling lifting loop (Hensel step modulo 2^min(2p, BITS)); the Mul/MulAssign operator impls forward to wrapping_mul (unit forward)",
         level_note="assumed: slice-length axiom, core integer specs, Uint::from(2), operator contracts on Uint inside inv_ring's loop (* - *=: unit forward + proved methods). "
                    "Declared rewrites in inv_ring: the core::num::Wrapping<u64> newtype is erased (Wrapping(x) -> x, .0 -> identity, * and - on such values -> wrapping_mul / wrapping_sub: the definition of Wrapping's "
-                   "operators). NOT decided: iterator Product beyond 2 elements (Kani)",
+                   "operators). Product<Self> / Product<&Self> are proved in unit sumprod for sequences of any length (empty product = 1, BITS = 0 gives 0) with the same declared rewrites as Sum (slice-iterator instance, fold written as its definition)",
         technique="deductive contracts (Verus, all widths) over the real multiplication code; Kani for Product and as counterexample source at tiny widths",
-        units=["core", "basics", "kernels", "addnx1", "addmul", "addmul_n", "mul", "invring", "forward"],
+        units=["core", "basics", "add", "kernels", "addnx1", "addmul", "addmul_n", "mul", "invring", "forward", "sumprod"],
         kani=dict(
             features=None,
             quick=["c02::c02_inv_ring_cond_w0", "c02::c02_inv_ring_w1", "c02::c02_inv_ring_w8", "c02::c02_product_w8", "c02::c02_mulc_zero_w128", "c02::c02_mulc_zero_w65", "c02::c02_mulc_zero_w192"],
@@ -130,7 +141,7 @@ PROPS = {
         ),
         explanation="the property's sentences about products are postconditions of the Uint methods over val(); every function between them and the u128 multiply is under contract",
         trusted=COMMON_TRUST,
-        not_decided=["iterator Product beyond 2 elements"],
+        not_decided=["Product over iterator types other than slice iterators (parametricity argument, not mechanised; Kani on <= 2 elements)"],
     ),
     "C05": dict(
         level="proof",
@@ -349,17 +360,17 @@ PROPS = {
                    "becomes floor(value / base) - so the digit iterator yields exactly the base-b digits; and from_base_be and from_base_le for ALL widths, bases and digit strings of ANY length (unit frombase): InvalidBase for base < 2, otherwise the string is scanned in its own order "
                    "and Ok(value) is returned exactly when every digit is < base and the denoted value is < 2^BITS, InvalidDigit(d, base) for the first invalid digit reached, Overflow as soon as a valid prefix denotes a value >= 2^BITS "
                    "(be: Horner step result*base + digit limb by limb; le: result += digit*power through the proved addmul_nx1 / mul_nx1 kernels, and once base^k >= 2^BITS every further digit must be zero); Kani checks from_base_le/be, from_str_radix (alphabets, errors) and FromStr prefix sniffing at small widths with constant bases",
-        level_note="NOT decided: Display/Debug/LowerHex/UpperHex/Octal/Binary formatting (core::fmt machinery behind write!/pad_integral: neither verifier models it at feasible cost) - only its per-base constants are pinned "
-                   "(unit fmt_consts: MAX = base^WIDTH, WIDTH >= 1, PREFIX, decided by evaluation of the extracted initialisers); from_str_radix only bounded "
+        level_note="Display/Debug/LowerHex/UpperHex/Octal/Binary formatting is NOT proved (core::fmt machinery behind write!/pad_integral: no result with a symbolic value in 20 min): its per-base constants are pinned for all widths "
+                   "(unit fmt_consts: MAX = base^WIDTH, WIDTH >= 1, PREFIX, decided by evaluation of the extracted initialisers) and a BOUNDED Kani grid (c09f: 19 concrete value/spec pairs through the real core::fmt::write, compared byte by byte with the u128 primitive's text: zero with and without #, LIMBS == 0, one chunk, three chunks, {:?}, {:+}) stands in; from_str_radix only bounded "
                    "(digit strings <= 4, constant bases, widths 8/16(/65)); to_base_be's Vec reversal is not separately proved; declared rewrites in from_base_be / from_base_le: the iterator parameter `I: IntoIterator<Item = u64>` is instantiated with a slice "
                    "iterator (the functions use `digits` only through the Iterator protocol), `for digit in iter.by_ref()` / `for digit in iter` are written as their definition `while let Some(d) = iter.next()`, "
                    "`for limb in &mut result.limbs` -> `.iter_mut()`, `#[verifier::truncate]` on `carry as u64`; vstd's specification of slice::Iter::next is trusted",
         technique="deductive contract (Verus, all widths/bases) for the digit step + Kani bounded contract harnesses for parsing",
         units=["core", "basics", "kernels", "spigot", "fmt_consts", "frombase"],
-        kani=dict(features=None, quick=hs("c09"), thorough=hs("c09"), bounds="see module header of kani/src/c09.rs"),
+        kani=dict(features=None, quick=hs("c09") + fmt_hs(True), thorough=hs("c09") + fmt_hs(False), bounds="see module headers of kani/src/c09.rs and c09f.rs (formatting: BOUNDED, one concrete value per harness)"),
         explanation="invariant of Knuth's algorithm S over the reversed limb iterator: processed high limbs hold the quotient, remainder < base",
         trusted=COMMON_TRUST,
-        not_decided=["formatting traits (Display, Debug, LowerHex, UpperHex, Octal, Binary)", "from_str_radix / FromStr beyond the stated bounds; from_base_* called with iterators other than a slice iterator (parametricity argument, not mechanised)"],
+        not_decided=["formatting traits (Display, Debug, LowerHex, UpperHex, Octal, Binary) beyond the concrete grid of c09f (bounded stand-in; width/fill/alignment only on zero)", "from_str_radix / FromStr beyond the stated bounds; from_base_* called with iterators other than a slice iterator (parametricity argument, not mechanised)"],
     ),
     "C10": dict(
         level="proof",
